@@ -199,6 +199,13 @@ func (c *copier) copy(v value) value {
 			}
 		}
 		return &n
+	case byteArrayV:
+		if na, ok := c.bytes[x.a]; ok {
+			return byteArrayV{na}
+		}
+		na := &byteArr{b: append([]*Term(nil), x.a.b...)}
+		c.bytes[x.a] = na
+		return byteArrayV{na}
 	case *bytePtr:
 		n := *x
 		if na, ok := c.bytes[x.arr]; ok {
